@@ -1196,7 +1196,11 @@ impl FdlActiveStation {
 
         let data = *self.state.get_use_token_data();
         if self.last_token_time != data.token_time {
-            self.end_token_hold_time = self.last_token_time + self.p.token_rotation_time();
+            // The previous token receipt cannot lie after this one.  The initial value does when the
+            // clock starts below zero, and the first token visit would then last until the clock
+            // reaches the target rotation time.
+            let previous_token_time = self.last_token_time.min(data.token_time);
+            self.end_token_hold_time = previous_token_time + self.p.token_rotation_time();
             self.last_token_time = data.token_time;
 
             if let GapState::DoPoll { .. } = self.gap_state {
